@@ -1256,9 +1256,12 @@ func (r *multiCIDRRangeAllocator) reconcileCreate(ctx context.Context, clusterCI
 	defer r.lock.Unlock()
 
 	logger := klog.FromContext(ctx)
-	if needToAddFinalizer(clusterCIDR, clusterCIDRFinalizer) {
+	// The cidrSets are mapped once the finalizer is on the object; handle the ClusterCIDR also when the
+	// finalizer is there but the cidrSets are not mapped yet (the write that added the finalizer was
+	// applied although it returned an error).
+	if needToAddFinalizer(clusterCIDR, clusterCIDRFinalizer) || !r.isMapped(clusterCIDR) {
 		logger.V(3).Info("Creating ClusterCIDR", "clusterCIDR", clusterCIDR.Name)
-		if err := r.createClusterCIDR(ctx, clusterCIDR, false); err != nil {
+		if err := r.createClusterCIDR(ctx, clusterCIDR, false, false); err != nil {
 			logger.Error(err, "Unable to create ClusterCIDR", "clusterCIDR", clusterCIDR.Name)
 			return err
 		}
@@ -1283,7 +1286,7 @@ func (r *multiCIDRRangeAllocator) reconcileBootstrap(ctx context.Context, cluste
 	}
 
 	logger.V(2).Info("Creating ClusterCIDR during bootstrap", "clusterCIDR", clusterCIDR.Name)
-	if err := r.createClusterCIDR(ctx, clusterCIDR, terminating); err != nil {
+	if err := r.createClusterCIDR(ctx, clusterCIDR, terminating, true); err != nil {
 		logger.Error(err, "Unable to create ClusterCIDR", "clusterCIDR", clusterCIDR.Name)
 		return err
 	}
@@ -1291,8 +1294,26 @@ func (r *multiCIDRRangeAllocator) reconcileBootstrap(ctx context.Context, cluste
 	return nil
 }
 
+// isMapped reports whether cidrSets of the ClusterCIDR are mapped under its selector.
+func (r *multiCIDRRangeAllocator) isMapped(clusterCIDR *v1.ClusterCIDR) bool {
+	nodeSelector, err := r.nodeSelectorKey(clusterCIDR)
+	if err != nil {
+		return false
+	}
+	for _, clusterCIDRSet := range r.cidrMap[nodeSelector] {
+		if clusterCIDRSet.Name == clusterCIDR.Name {
+			return true
+		}
+	}
+	return false
+}
+
 // createClusterCIDR creates and maps the cidrSets in the cidrMap.
-func (r *multiCIDRRangeAllocator) createClusterCIDR(ctx context.Context, clusterCIDR *v1.ClusterCIDR, terminating bool) error {
+// During bootstrap the cidrSets are mapped whatever happens to the API write, because the pod CIDRs of
+// the existing nodes have to be occupied in them. Otherwise they are mapped only once the finalizer is
+// on the object, so that a mapped entry never belongs to an object that can disappear without the
+// controller being asked.
+func (r *multiCIDRRangeAllocator) createClusterCIDR(ctx context.Context, clusterCIDR *v1.ClusterCIDR, terminating, bootstrap bool) error {
 	nodeSelector, err := r.nodeSelectorKey(clusterCIDR)
 	if err != nil {
 		return fmt.Errorf("unable to get labelSelector key: %w", err)
@@ -1307,28 +1328,38 @@ func (r *multiCIDRRangeAllocator) createClusterCIDR(ctx context.Context, cluster
 		return errors.New("invalid ClusterCIDR: must provide IPv4 and/or IPv6 config")
 	}
 
-	if err := r.mapClusterCIDRSet(r.cidrMap, nodeSelector, clusterCIDRSet); err != nil {
-		return fmt.Errorf("unable to map clusterCIDRSet: %w", err)
-	}
-
-	// Make a copy so we don't mutate the shared informer cache.
-	updatedClusterCIDR := clusterCIDR.DeepCopy()
-	if needToAddFinalizer(clusterCIDR, clusterCIDRFinalizer) {
-		updatedClusterCIDR.ObjectMeta.Finalizers = append(clusterCIDR.ObjectMeta.Finalizers, clusterCIDRFinalizer) //nolint
-	}
-
-	logger := klog.FromContext(ctx)
-	if updatedClusterCIDR.ResourceVersion == "" {
-		// Create is only used for creating default ClusterCIDR.
-		if _, err := r.networkClient.Create(ctx, updatedClusterCIDR, metav1.CreateOptions{}); err != nil {
-			logger.V(2).Info("Error creating ClusterCIDR", "clusterCIDR", klog.KObj(clusterCIDR), "err", err)
-			return err
+	if bootstrap {
+		if err := r.mapClusterCIDRSet(r.cidrMap, nodeSelector, clusterCIDRSet); err != nil {
+			return fmt.Errorf("unable to map clusterCIDRSet: %w", err)
 		}
-	} else {
-		// Update the ClusterCIDR object when called from reconcileCreate.
-		if _, err := r.networkClient.Update(ctx, updatedClusterCIDR, metav1.UpdateOptions{}); err != nil {
-			logger.V(2).Info("Error creating ClusterCIDR", "clusterCIDR", clusterCIDR.Name, "err", err)
-			return err
+	}
+
+	if bootstrap || needToAddFinalizer(clusterCIDR, clusterCIDRFinalizer) {
+		// Make a copy so we don't mutate the shared informer cache.
+		updatedClusterCIDR := clusterCIDR.DeepCopy()
+		if needToAddFinalizer(clusterCIDR, clusterCIDRFinalizer) {
+			updatedClusterCIDR.ObjectMeta.Finalizers = append(updatedClusterCIDR.ObjectMeta.Finalizers, clusterCIDRFinalizer)
+		}
+
+		logger := klog.FromContext(ctx)
+		if updatedClusterCIDR.ResourceVersion == "" {
+			// Create is only used for creating default ClusterCIDR.
+			if _, err := r.networkClient.Create(ctx, updatedClusterCIDR, metav1.CreateOptions{}); err != nil {
+				logger.V(2).Info("Error creating ClusterCIDR", "clusterCIDR", klog.KObj(clusterCIDR), "err", err)
+				return err
+			}
+		} else {
+			// Update the ClusterCIDR object when called from reconcileCreate.
+			if _, err := r.networkClient.Update(ctx, updatedClusterCIDR, metav1.UpdateOptions{}); err != nil {
+				logger.V(2).Info("Error creating ClusterCIDR", "clusterCIDR", clusterCIDR.Name, "err", err)
+				return err
+			}
+		}
+	}
+
+	if !bootstrap {
+		if err := r.mapClusterCIDRSet(r.cidrMap, nodeSelector, clusterCIDRSet); err != nil {
+			return fmt.Errorf("unable to map clusterCIDRSet: %w", err)
 		}
 	}
 
